@@ -289,6 +289,26 @@ def report(ctx, name, cid, lines, bad, mismatch):
             lines = C.parse_trace_cases(o).get("s", lines) + lines[2:]
             bad = judge_errtype_case(lines) or bad
             cid = "s"
+    if name == "release" and bad:
+        ops = [l for l in lines if l.startswith("op ")]
+        def rerun(cand):
+            p = os.path.join(ctx.work, "shr.in"); o = os.path.join(ctx.work, "shr.out")
+            open(p, "w").write("case s\ninit\n" + "".join(x + "\n" for x in cand))
+            rc, _ = C.run([DRV(), "release", "-replay", p, "-out", o], timeout=60)
+            return C.parse_trace_cases(o).get("s", []) if rc == 0 else []
+        changed, budget = True, 40
+        while changed and budget > 0:
+            changed = False
+            for i in range(len(ops)):
+                budget -= 1
+                cand = ops[:i] + ops[i + 1:]
+                if cand and judge_release_case(rerun(cand)):
+                    ops, changed = cand, True
+                    break
+        final = rerun(ops)
+        if judge_release_case(final):
+            lines, bad, cid = final, judge_release_case(final), "s"
+            sig = "release:" + C.hashlib.sha1("\n".join(ops).encode()).hexdigest()[:16]
     if name in ("cause", "handler"):
         extra = (f"the document is regenerated from the case identifier; dump it with:\n"
                  f"  {DRV()} {SPEC[name][0]} -replay <this file> -out /tmp/c20.trace -dump /tmp/c20dump\n")
